@@ -20,7 +20,7 @@ RULE = ('2-4 simulated threads each execute 1-3 source-line statements on one at
 ASSUMPTIONS = ['single instance, single attribute (independence of instances is C29)']
 PROBES = ['switch_inside_augmented_assignment']
 PLAN = {
-  'quick': {'strata': {'threads': 6000}, 'wall_s': 90, 'chunk': 100, 'min_conclusive': 1000},
+  'quick': {'strata': {'threads': 6000}, 'wall_s': 300, 'chunk': 100, 'min_conclusive': 1000},
   'thorough': {'strata': {'threads': 150000}, 'wall_s': 900, 'chunk': 250, 'min_conclusive': 10000},
 }
 OPS = {'+=': operator.add, '-=': operator.sub, '*=': operator.mul, '//=': operator.floordiv, '**=': operator.pow,
